@@ -132,4 +132,124 @@ theorem Tie_ejson_tag_matches_model (v : Ejson.V) (o : EObj) (h : eobjOf v = som
     | none => simp [EObj.expected, topKeyPV]
     | some p => obtain ⟨a, b⟩ := p; simp [EObj.expected, topKeyPV]
 
+/-! ## the decoder's hook `CommonJSONDecoder.object_hook` on objects with one member
+
+The hook is re-translated too (`Live.Py.ejson_hook`; the subset gained tuple-unpacking assignment and calls such as
+`datetime.datetime.strptime`).  The leaf parsers are externals defined from the *model's* parsers (`Ejson.parseTime`, `parseDate`,
+`parseDateTime`, `Leaf.decOk`, `Leaf.durOk` — the model's assumptions about `strptime`, `Decimal`, `parse_duration`), each to be
+called with the format constant of its kind.  `Tie_hook_<kind>`: an object whose only member is the tag of that kind is decoded
+to the value of that kind when the payload parses and is returned unchanged when it does not (`except …: pass`, then every
+later `if` finds its key absent) — the clauses of `Ejson.hook` one by one; `Tie_hook_plain`: an object without tag keys is
+returned as it is.  (Objects carrying several tags at once are outside the encoder's image; their fall-through order stays with
+the `ejson` correspondence.) -/
+
+open Df.Ejson in
+def hkExt (L : Ejson.Leaf) : Ext := fun f args =>
+  match f, args with
+  | "decimal.Decimal", [.str t] => if L.decOk t then .ok (.tuple [.str "decimal", .str t]) else .error (.user "InvalidOperation")
+  | "datetime.datetime.strptime", [.str s, fmt] =>
+    if PV.same fmt TF then
+      (match Ejson.parseTime s with
+       | some (h, m, sec) => .ok (.tuple [.str "parsed", .none, .tuple [.str "time", .int h, .int m, .int sec]])
+       | Option.none => .error (.user "ValueError"))
+    else if PV.same fmt DTF then
+      (match Ejson.parseDateTime s with
+       | some ((y, mo, d), (h, m, sec)) =>
+         .ok (.tuple [.str "parsed", .tuple [.str "date", .int y, .int mo, .int d], .tuple [.str "time", .int h, .int m, .int sec]])
+       | Option.none => .error (.user "ValueError"))
+    else if PV.same fmt DF then
+      (match Ejson.parseDate s with
+       | some (y, mo, d) => .ok (.tuple [.str "parsed", .tuple [.str "date", .int y, .int mo, .int d], .none])
+       | Option.none => .error (.user "ValueError"))
+    else .error (.missingExt "strptime with another format")
+  | ".time", [.tuple [.str "parsed", _, t]] => .ok t
+  | ".date", [.tuple [.str "parsed", d, _]] => .ok d
+  | "datetime.timedelta", [.tuple [.str "seconds", .int o]] => .ok (.tuple [.str "timedelta", .int o])
+  | "datetime.timezone", [.tuple [.str "timedelta", .int o], .str nm] => .ok (.tuple [.str "tz", .int o, .str nm])
+  | "datetime.datetime.combine", [d, t, tz] => .ok (.tuple [.str "datetime", d, t, tz])
+  | "isodate.parse_duration", [.str t] => if L.durOk t then .ok (.tuple [.str "duration", .str t]) else .error (.user "ValueError")
+  | _, _ => .error (.missingExt f)
+
+def hookRun (L : Ejson.Leaf) (obj : PV) : Except Err PV :=
+  callFn (hkExt L) Live.Py.ejson_hook [.none, obj, TF, DTF, DF]
+
+macro "hook_eval" : tactic =>
+  `(tactic| simp_all [hookRun, callFn, Live.Py.ejson_hook, bindParams, exec, execH, catches, evalE, evalArgs, applyFn, builtinOp, opIn, opGetitem,
+      opSet, opIsnot, opMkTuple, containsPV, iterOf, hkExt, TF, DTF, DF, PV.same, PV.sameL, PV.lookup, PV.beq, PV.truthy, isNone, Env.get,
+      Env.set, List.lookup, bind, Except.bind, Except.map, dedupPV])
+
+theorem Tie_hook_decimal (L : Ejson.Leaf) (t : String) :
+    hookRun L (.dict [(.str "type{decimal}", .str t)])
+      = .ok (if L.decOk t then .tuple [.str "decimal", .str t] else .dict [(.str "type{decimal}", .str t)]) := by
+  by_cases h : L.decOk t = true
+  · hook_eval
+  · have h' : L.decOk t = false := by simpa using h
+    hook_eval
+
+theorem Tie_hook_time (L : Ejson.Leaf) (s : String) :
+    hookRun L (.dict [(.str "type{time}", .str s)])
+      = .ok (match Ejson.parseTime s with
+             | some (h, m, sec) => .tuple [.str "time", .int h, .int m, .int sec]
+             | Option.none => .dict [(.str "type{time}", .str s)]) := by
+  cases hp : Ejson.parseTime s with
+  | none => hook_eval
+  | some x => obtain ⟨h, m, sec⟩ := x; hook_eval
+
+theorem Tie_hook_date (L : Ejson.Leaf) (s : String) :
+    hookRun L (.dict [(.str "type{date}", .str s)])
+      = .ok (match Ejson.parseDate s with
+             | some (y, mo, d) => .tuple [.str "date", .int y, .int mo, .int d]
+             | Option.none => .dict [(.str "type{date}", .str s)]) := by
+  cases hp : Ejson.parseDate s with
+  | none => hook_eval
+  | some x => obtain ⟨y, mo, d⟩ := x; hook_eval
+
+theorem Tie_hook_duration (L : Ejson.Leaf) (t : String) :
+    hookRun L (.dict [(.str "type{duration}", .str t)])
+      = .ok (if L.durOk t then .tuple [.str "duration", .str t] else .dict [(.str "type{duration}", .str t)]) := by
+  by_cases h : L.durOk t = true
+  · hook_eval
+  · have h' : L.durOk t = false := by simpa using h
+    hook_eval
+
+/-- a naive datetime (`tzname` is None): the parsed value itself -/
+theorem Tie_hook_datetime_naive (L : Ejson.Leaf) (s : String) :
+    hookRun L (.dict [(.str "type{datetime}", .list [.str s, .none, .none])])
+      = .ok (match Ejson.parseDateTime s with
+             | some ((y, mo, d), (h, m, sec)) =>
+               .tuple [.str "parsed", .tuple [.str "date", .int y, .int mo, .int d], .tuple [.str "time", .int h, .int m, .int sec]]
+             | Option.none => .dict [(.str "type{datetime}", .list [.str s, .none, .none])]) := by
+  cases hp : Ejson.parseDateTime s with
+  | none => hook_eval
+  | some x => obtain ⟨⟨y, mo, d⟩, ⟨h, m, sec⟩⟩ := x; hook_eval
+
+/-- a zone-aware datetime: date and time of the parsed text combined with `timezone(timedelta(seconds=offset), name)` -/
+theorem Tie_hook_datetime_aware (L : Ejson.Leaf) (s nm : String) (o : Int) :
+    hookRun L (.dict [(.str "type{datetime}", .list [.str s, .int o, .str nm])])
+      = .ok (match Ejson.parseDateTime s with
+             | some ((y, mo, d), (h, m, sec)) =>
+               .tuple [.str "datetime", .tuple [.str "date", .int y, .int mo, .int d], .tuple [.str "time", .int h, .int m, .int sec],
+                       .tuple [.str "tz", .int o, .str nm]]
+             | Option.none => .dict [(.str "type{datetime}", .list [.str s, .int o, .str nm])]) := by
+  cases hp : Ejson.parseDateTime s with
+  | none => hook_eval
+  | some x => obtain ⟨⟨y, mo, d⟩, ⟨h, m, sec⟩⟩ := x; hook_eval
+
+theorem Tie_hook_set (L : Ejson.Leaf) (xs : List PV) :
+    hookRun L (.dict [(.str "type{set}", .list xs)]) = .ok (.set (dedupPV [] xs)) := by
+  hook_eval
+
+/-- an object that carries none of the six tags comes back as it is -/
+theorem Tie_hook_plain (L : Ejson.Leaf) (kvs : List (PV × PV))
+    (h : ∀ k ∈ Ejson.tagKeys, PV.lookup (.str k) kvs = Option.none) :
+    hookRun L (.dict kvs) = .ok (.dict kvs) := by
+  have h1 := h "type{decimal}" (by simp [Ejson.tagKeys])
+  have h2 := h "type{time}" (by simp [Ejson.tagKeys])
+  have h3 := h "type{datetime}" (by simp [Ejson.tagKeys])
+  have h4 := h "type{date}" (by simp [Ejson.tagKeys])
+  have h5 := h "type{duration}" (by simp [Ejson.tagKeys])
+  have h6 := h "type{set}" (by simp [Ejson.tagKeys])
+  simp [hookRun, callFn, Live.Py.ejson_hook, bindParams, exec, evalE, evalArgs, applyFn, builtinOp, opIn, containsPV, h1, h2, h3, h4, h5, h6,
+    PV.truthy, Env.get, Env.set, List.lookup, bind, Except.bind, Except.map]
+
 end Df.Tie
